@@ -29,9 +29,10 @@ RULE = (
     "collection slot is set."
 )
 TRUSTED = [
-    "Coq 8.16.1 kernel and vm_compute; theorems C04_json_* of coq/PropsJson.v (from JsonProofs.v): closed under the global "
-    "context — C04_json_denote_save (the document denotes the canonical content of the CAS, no stableb premise any more: "
-    "ReachSpec.find_all_fs_stable), C04_json_ids_distinct, C04_json_refs_resolve, C04_json_doc_closed",
+    "Coq 8.16.1 kernel and vm_compute; theorems of coq/PropsJson.v (from JsonProofs.v / JsonProofs2.v / JsonLex.v), all closed "
+    "under the global context: C04_json_denote_save (the document denotes the canonical content of the CAS; the former "
+    "premise stableb is discharged by ReachSpec.find_all_fs_stable), C04_json_ids_distinct, C04_json_refs_resolve, "
+    "C04_json_entries, C04_json_std_lex_ok; doc_ok_json of the written document beyond its closed part is evaluated per case",
     "models coq/JsonDoc.v (the declarative reading denote_json = the independent reader, doc_ok_json, doc_ids_distinctb, "
     "doc_refs_resolveb), coq/Json.v (writer), coq/Reach.v (_find_all_fs), coq/Offsets.v, coq/Schema.v",
     "stdlib json as the text -> abstract JSON layer (harness/jsonabs.py; floats as float.hex() tokens); UTF-8 / base64 "
